@@ -126,12 +126,13 @@ func Check(c *Case) (res kit.Result) {
 		ti := kit.Info(c.T)
 		_, hi := kit.IntRange(ti)
 		want := pow2(c.H - c.L)
+		// the call is made for every (type, h, l); its result is only specified when 2^(h-l) fits the type
+		var got *big.Int
+		if p, v := kit.Try(func() { got = f(signal.BitDepth(c.H), signal.BitDepth(c.L)) }); p {
+			res.Failf("Scale[%s](%d,%d) panicked: %v", c.T, c.H, c.L, v)
+			return
+		}
 		if want.Cmp(new(big.Int).SetUint64(hi)) <= 0 { // "whenever that fits the integer type"
-			var got *big.Int
-			if p, v := kit.Try(func() { got = f(signal.BitDepth(c.H), signal.BitDepth(c.L)) }); p {
-				res.Failf("Scale[%s](%d,%d) panicked: %v", c.T, c.H, c.L, v)
-				return
-			}
 			if got.Cmp(want) != 0 {
 				res.Failf("Scale[%s](%d,%d) = %s, want 2^%d = %s", c.T, c.H, c.L, got, c.H-c.L, want)
 				return
